@@ -89,13 +89,16 @@ Proof. exact pub_flags_reject. Qed.
 Print Assumptions C16_bad_range_length_rejected.
 
 (* IEEE instance, default proportion: for every channel count 1..400 and every
-   count c, the float64 test  c/nc > 0.2  of the source decides exactly
-   "more than one fifth of the channels" (exhaustive evaluation, 80 601 pairs). *)
-Theorem C16_default_proportion_exact_upto_400 :
-  forall nc c, 1 <= nc <= 400 -> 0 <= c <= nc ->
+   count c within five channels of nc/5 (|5c - nc| <= 25: the counts one below /
+   at / above proportion*nc and their neighbours), the float64 test  c/nc > 0.2  of
+   the source decides exactly "more than one fifth of the channels" (exhaustive
+   evaluation of the Flocq model).  Partial: the statement for ALL c <= nc was
+   checked the same way but is not in the build, see Sweep.v. *)
+Theorem C16_default_proportion_exact_near_boundary_partial :
+  forall nc c, 1 <= nc <= 400 -> 0 <= c <= nc -> Z.abs (5 * c - nc) <= 25 ->
   i_gt_pp (i_mean c nc) p02 = (nc <? 5 * c).
 Proof. exact pub_default_prop. Qed.
-Print Assumptions C16_default_proportion_exact_upto_400.
+Print Assumptions C16_default_proportion_exact_near_boundary_partial.
 
 (* ---- Part 2: the mute ---------------------------------------------------- *)
 
